@@ -1,6 +1,6 @@
 (* C12 proofs, part C: update_quota (grant, cap, reactivation), the consumer step, enable/disable. *)
 From Coq Require Import List NArith Bool Lia PeanoNat.
-From LTV.C12 Require Import ParamsGen.
+From LTV.C12 Require Import ParamsGen PolicyGen.
 From LTV.C12 Require Import Model ProofsA ProofsB.
 Import ListNotations.
 Local Open Scope N_scope.
